@@ -5,6 +5,7 @@ import (
 	"encoding/json"
 	"errors"
 	"fmt"
+	"strings"
 	"sync"
 
 	"github.com/elementsproject/peerswap/log"
@@ -988,7 +989,7 @@ func (s *SwapService) lockSwap(swapId, channelId string, fsm *SwapStateMachine) 
 
 	// Check if we already have an active swap on the same channel
 	for id, swap := range s.activeSwaps {
-		if swap.Data.GetScid() == channelId {
+		if normalizeScid(swap.Data.GetScid()) == normalizeScid(channelId) {
 			return ActiveSwapError{channelId: channelId, swapId: id}
 		}
 	}
@@ -996,6 +997,12 @@ func (s *SwapService) lockSwap(swapId, channelId string, fsm *SwapStateMachine) 
 	// Add active swap
 	s.activeSwaps[swapId] = fsm
 	return nil
+}
+
+// normalizeScid maps both short channel id spellings ("1x2x3" as used by CLN
+// and "1:2:3" as used by LND) to one form so they compare equal.
+func normalizeScid(scid string) string {
+	return strings.ReplaceAll(scid, ":", "x")
 }
 
 type ActiveSwapError struct {
